@@ -82,6 +82,9 @@ func isMemName(be string) bool { return len(be) >= 3 && be[:3] == "mem" }
 
 // ExecuteRunFile replays an explicit run file.
 func ExecuteRunFile(rf *RunFile) *RunOutcome {
+	if (rf.Isolate || rf.Engine == "regen") && !inChildProc {
+		return executeIsolated(rf)
+	}
 	switch rf.Engine {
 	case "hist", "":
 		return runHist(rf, nil, len(rf.Ops))
@@ -117,6 +120,7 @@ func runHist(rf *RunFile, g *Gen, nOps int) *RunOutcome {
 	if g != nil && g.Cfg.Mode == "twin" {
 		g.setupTwins()
 	}
+	traceRunStart(rf)
 	for i := 0; i < nOps; i++ {
 		var op *Op
 		if g != nil {
